@@ -33,8 +33,8 @@ type Sim struct {
 	stepNo int
 
 	mempool []pendingTx
-	txs     map[int]*TxRecord      // by step id
-	byHash  map[string]*TxRecord   // by canonical bytes (signed content identity)
+	txs     map[int]*TxRecord    // by step id
+	byHash  map[string]*TxRecord // by canonical bytes (signed content identity)
 	nextID  int
 	entropy int64
 
@@ -47,6 +47,8 @@ type Sim struct {
 	life *lifecycle
 
 	simSeconds float64
+	sched      map[string]int64
+	effective  map[string]bool // "height/index" of deliveries with a non-empty diff
 	addrIdx    map[string]int
 	replay     bool
 	aborted    bool
@@ -70,7 +72,7 @@ func (engine) Run(prop string, seed uint64, tier string, replay *core.Schedule) 
 		tuneForProperty(cfg, prop, r.Sub("tune"))
 	}
 	s := &Sim{prop: prop, tier: tier, cfg: cfg, res: res, txs: map[int]*TxRecord{}, byHash: map[string]*TxRecord{}, book: map[int64]*Dump{},
-		results: map[int64]*BlockResult{}, replay: replay != nil, nextID: 1, entropy: 1000, life: newLifecycle()}
+		results: map[int64]*BlockResult{}, effective: map[string]bool{}, replay: replay != nil, nextID: 1, entropy: 1000, life: newLifecycle()}
 	s.node = NewNode(cfg, "primary", NewDisks(), 0, nil)
 	s.drv = NewDriver()
 	s.drv.InitChain(s.node.InitChain())
@@ -298,6 +300,9 @@ func (s *Sim) restart() {
 		s.violate("C04", "restart-height", "app", fmt.Sprintf("restarted node reports height %d, committed %d", got, s.drv.Height))
 	}
 	s.checkUpgradeGlobals("after-restart")
+	if s.prop == "C42" {
+		s.checkSearch("after-restart")
+	}
 }
 
 func sortedKeys(m map[string]int64) []string {
